@@ -72,7 +72,9 @@ def generate(rng, tier):
                 kind = "ntuple"
             if kind == "oneshot":
                 kind = rng.choice(["iter", "gen"]) if i > 0 else "list"
-            if kind == "scalar":
+            if kind == "scalar" and rng.random() < 0.15:
+                grid.append([f"p{i}", {"kind": "taglib", "v": rng.choice([["PREY", "PREDATOR"], ["A"], [], ["X", "Y", "Z"]])}])
+            elif kind == "scalar":
                 grid.append([f"p{i}", {"kind": "scalar", "v": rng.randint(0, 9)}])
             elif kind == "range":
                 grid.append([f"p{i}", {"kind": "range", "v": n}])
